@@ -92,14 +92,23 @@ func (d *Device) handleKEYEvent(ie *input.InputEvent) {
 	}
 }
 
+// analogIdentifier names one direction of an axis of one sub-handler in analogNoteTracker
+// (several handlers of a device may report the same axis code)
+func analogIdentifier(ie *input.InputEvent, negative bool) string {
+	if negative {
+		return fmt.Sprintf("%s/%d_neg", ie.Source.Name, ie.Event.Code)
+	}
+	return fmt.Sprintf("%s/%d", ie.Source.Name, ie.Event.Code)
+}
+
 func (d *Device) handleABSEvent(ie *input.InputEvent) {
 	analog, analogOk := d.config.KeyMappings[d.mapping].Analog[ie.Source.Name][ie.Event.Code]
 
 	if !analogOk || analog.MappingType != config.AnalogKeySim {
 		// same workaround as for keys: the mapping has been changed while the axis was emulating a held key
 		// and the new mapping does not treat it as a key anymore
-		d.AnalogNoteOff(fmt.Sprintf("%d", ie.Event.Code), ie)
-		d.AnalogNoteOff(fmt.Sprintf("%d_neg", ie.Event.Code), ie)
+		d.AnalogNoteOff(analogIdentifier(ie, false), ie)
+		d.AnalogNoteOff(analogIdentifier(ie, true), ie)
 	}
 
 	if !analogOk {
@@ -254,8 +263,8 @@ func (d *Device) handleABSEvent(ie *input.InputEvent) {
 			value = value*2 - 1.0
 		}
 
-		identifier := fmt.Sprintf("%d", ie.Event.Code)
-		identifierNeg := fmt.Sprintf("%d_neg", ie.Event.Code)
+		identifier := analogIdentifier(ie, false)
+		identifierNeg := analogIdentifier(ie, true)
 
 		switch {
 		case value <= -0.5:
